@@ -1577,4 +1577,93 @@ theorem rsamd5Fed_unwrapped (chunk : Nat) (h4 : chunk % 4 = 0) (hpos : 0 < chunk
           congr 1
           exact ih _ (by rw [List.length_drop]; omega) (fun x hx => hnl x (List.mem_of_mem_drop hx)) hrest
 
+/-! ### canonical RDATA -/
+
+theorem lower_length (b : Bytes) : (lower b).length = b.length := by simp [lower]
+
+theorem foldName_length : ∀ (f : Nat) (rd nm rest : Bytes), foldName f rd = some (nm, rest) →
+    nm.length + rest.length = rd.length := by
+  intro f
+  induction f with
+  | zero => intro rd nm rest h; simp [foldName] at h
+  | succ n ih =>
+    intro rd nm rest h
+    cases rd with
+    | nil => simp [foldName] at h
+    | cons l t =>
+      unfold foldName at h
+      by_cases hl : (l == 0) = true
+      · simp only [hl, if_true, Option.some.injEq, Prod.mk.injEq] at h
+        obtain ⟨rfl, rfl⟩ := h; simp; omega
+      · simp only [hl, Bool.false_eq_true, if_false] at h
+        split at h
+        · cases h
+        · rename_i hc
+          simp only [Bool.or_eq_true, decide_eq_true_eq, not_or, Nat.not_lt] at hc
+          cases hr : foldName n (List.drop l.toNat t) with
+          | none => simp [hr] at h
+          | some p =>
+            obtain ⟨nm', rest'⟩ := p
+            simp only [hr, Option.some.injEq, Prod.mk.injEq] at h
+            obtain ⟨rfl, rfl⟩ := h
+            have := ih _ _ _ hr
+            simp only [List.length_cons, List.length_append, lower_length, List.length_take, List.length_drop] at this ⊢
+            omega
+
+theorem foldNames_length : ∀ (n : Nat) (rd nms rest : Bytes), foldNames n rd = some (nms, rest) →
+    nms.length + rest.length = rd.length := by
+  intro n
+  induction n with
+  | zero => intro rd nms rest h; simp [foldNames] at h; obtain ⟨rfl, rfl⟩ := h; simp
+  | succ k ih =>
+    intro rd nms rest h
+    unfold foldNames at h
+    cases h1 : foldName (rd.length + 1) rd with
+    | none => simp [h1] at h
+    | some p =>
+      obtain ⟨nm, r1⟩ := p
+      simp only [h1] at h
+      cases h2 : foldNames k r1 with
+      | none => simp [h2] at h
+      | some q =>
+        obtain ⟨nms', r2⟩ := q
+        simp only [h2, Option.some.injEq, Prod.mk.injEq] at h
+        obtain ⟨rfl, rfl⟩ := h
+        have a := foldName_length _ _ _ _ h1
+        have b := ih _ _ _ h2
+        simp only [List.length_append]; omega
+
+/-- the canonical RDATA has the length of the published one (RDLENGTH is unchanged). -/
+theorem canonRdata_length (typ : Nat) (rd c : Bytes) (h : canonRdata typ rd = some c) : c.length = rd.length := by
+  unfold canonRdata at h
+  cases hl : rdataLayout typ rd with
+  | none => simp [hl] at h; rw [← h]
+  | some p =>
+    obtain ⟨skip, n, tail⟩ := p
+    simp only [hl] at h
+    split at h
+    · cases h
+    · rename_i hs
+      cases hf : foldNames n (List.drop skip rd) with
+      | none => simp [hf] at h
+      | some q =>
+        obtain ⟨nms, rest⟩ := q
+        simp only [hf] at h
+        split at h
+        · cases h
+        · simp only [Option.some.injEq] at h
+          rw [← h]
+          have := foldNames_length _ _ _ _ hf
+          simp only [List.length_append, List.length_take, List.length_drop] at this ⊢
+          omega
+
+/-- types outside the RFC 4034 §6.2 / RFC 6840 §5.1 list are signed as published. -/
+theorem canonRdata_unlisted (typ : Nat) (rd : Bytes)
+    (h : typ ∉ [2, 3, 4, 5, 6, 7, 8, 9, 12, 14, 15, 17, 18, 21, 26, 33, 35, 36, 39]) : canonRdata typ rd = some rd := by
+  have hl : rdataLayout typ rd = none := by
+    unfold rdataLayout
+    simp only [List.mem_cons, List.not_mem_nil, or_false, not_or] at h
+    simp [h]
+  unfold canonRdata; rw [hl]
+
 end SdnsVerif.Lemmas.DnssecPrim
